@@ -350,7 +350,7 @@ def delta (x : Attr) (isend : Bool) (stdOff dstOff : Int) : Py.R Delta := do
         -- relativedelta(yearday=yd): falsy 0 is ignored
         if yd == 0 then .ok none else do
           let (m, d) ← ydayToMonthDay yd
-          .ok (some { month := some m, day := some d, leapdays := if yd > 59 then -1 else 0 })
+          .ok (some { month := some m, day := some d, leapdays := if 59 < yd ∧ yd < 366 then -1 else 0 })
       | none =>
         match x.jyday with
         | some jd =>
